@@ -374,7 +374,15 @@ def _step(L, rig, op, tag, D):
             bad("result-shape", f"fast_scan returned {result!r}")
             return
         parts = [sl for sl, st0, unconf in live0 if st0 == WAITING and unconf]
-        if len(parts) == 1:
+        unconf_all = [sl for sl, _, unconf in live0 if unconf]
+        if len(parts) == 1 and len(unconf_all) > 1:
+            # a second unconfigured device sits in configuration state: not "the one unconfigured device" (a
+            # master that first switches everybody to waiting state may find either); a success must name
+            # one of the unconfigured devices
+            if ok and (ids is None or [int(x) for x in ids] not in [sl.identity for sl in unconf_all]):
+                bad("identity", f"found {_hexid(ids) if ids is not None else None}, the unconfigured devices "
+                                f"are {' / '.join(_hexid(sl.identity) for sl in unconf_all)}")
+        elif len(parts) == 1:
             slave = parts[0]
             if not ok:
                 bad("not-found", f"returned {result!r} although slave {_hexid(slave.identity)} takes part "
@@ -400,9 +408,9 @@ def _step(L, rig, op, tag, D):
         else:
             # two or more unconfigured devices: outside "the one unconfigured device"; only a success
             # that names none of them is judged
-            if ok and (ids is None or [int(x) for x in ids] not in [sl.identity for sl in parts]):
-                bad("identity", f"found {_hexid(ids) if ids is not None else None}, the devices taking part "
-                                f"are {' / '.join(_hexid(sl.identity) for sl in parts)}")
+            if ok and (ids is None or [int(x) for x in ids] not in [sl.identity for sl in unconf_all]):
+                bad("identity", f"found {_hexid(ids) if ids is not None else None}, the unconfigured devices "
+                                f"are {' / '.join(_hexid(sl.identity) for sl in unconf_all)}")
         return
 
     # ---- (e) selective switch ----------------------------------------------------
